@@ -9,7 +9,7 @@ From Continuum Require Import Model.Base Model.VTable Model.Core
    reachable state - a transaction leaves at most one row per entity - and the package never
    trips over a row it wrote in an earlier flush of the same transaction *)
 Theorem C11_at_most_one_row : forall g evs,
-  cfg_consistent g -> flat_hier g ->
+  cfg_consistent g -> hier_consistent g ->
   pk_unique (d_vt (s_db (run g evs))) /\ s_err (run g evs) = false.
 Proof.
   intros g evs CC FH. split; [apply (reachable_tables_ok g evs CC FH) | apply reachable_no_error; assumption].
